@@ -369,3 +369,7 @@ func TestMain(m *testing.M)   { vf.Main(m, "C09") }
 func TestCorpus(t *testing.T) { vf.Corpus(t) }
 func TestProp(t *testing.T)   { vf.RunAll(t) }
 func TestReplay(t *testing.T) { vf.ReplayEnv(t) }
+
+// native fuzz targets (thorough tier): the fuzzer mutates the byte stream that rapid decodes into generator choices
+func FuzzHistoryCNF(f *testing.F) { vf.FuzzNamed(f, "C09", "cnf-base") }
+func FuzzHistoryCard(f *testing.F) { vf.FuzzNamed(f, "C09", "dense-cardinality") }
